@@ -7,7 +7,8 @@ CLAIMS = {
                 "chunking and handler): must-dataflow over the interprocedural event graph of Token::run and of every Request API "
                 "the handler can call shows that at each transport read 'every buffered complete record was parsed' and 'both "
                 "parsers' reply buffers were handed to the transport' hold (R8.1), and that parser conversions happen with a "
-                "flushed reply buffer (R8.2). Found the three-site defect fixed in /repo e219e77.",
+                "flushed reply buffer (R8.2); both parse() functions always drive their processing loop (R8.3); a stream switch never cancels a "
+                "management body in flight, so its reply stays owed and is produced (R8.4). Found the three-site defect fixed in /repo e219e77.",
         "note": "Assumes parse() consumes every complete buffered record unless it returns data/end/error; write_all completes iff "
                 "all bytes were accepted; while the handler runs only public Request APIs are called. Liveness of the executor is out of scope.",
         "design_ref": "DESIGN.md §4 C08, §5",
@@ -35,7 +36,9 @@ CLAIMS["C07"] = {
             "handler's status or ExitStatus::ABORT (R7.2); inside close(): set_stream(None), record-boundary drain and reply flush precede "
             "the epilogue, exactly one epilogue write on every Ok path through the try_unwrap'd writer, nothing written after it, epilogue "
             "built from the request's id, close()'s status and output_streams() iff writeable (R7.3); reuse iff KeepConn, ConnectionReset "
-            "otherwise, and run() re-enters the preamble phase only with close()'s Ok value (R7.4). Does NOT decide byte-level output "
+            "otherwise, and run() re-enters the preamble phase only with close()'s Ok value (R7.4); the hand-off to the next request keeps the "
+            "unread input (R7.5), the buffer is compacted before every in-request read (R7.6), a stream switch always demotes a record of the "
+            "old stream in flight and close() never drives the parser at a record boundary (R7.7). Does NOT decide byte-level output "
             "correctness per transport split, nor that the handler sees exactly the request's environment/streams (C01/C02/C09).",
     "note": "Parser APIs are events with their documented meaning; make_request_epilogue's own encoding is C17's subject.",
     "design_ref": "DESIGN.md §4 C07",
@@ -141,7 +144,8 @@ CLAIMS["C11"] = {
             "ConnectionAborted, whole table as documented (R11.3); run() selects ExitStatus::ABORT exactly under kind()==ConnectionAborted "
             "of the handler's error and still calls close(); ABORT == Complete(b\"ABRT\") (R11.4); exactly three tolerated errors exist and "
             "the record-boundary drain consults the boundary predicate after every parse before reading again (R11.5); the next request "
-            "parser skips the retained AbortRequest without replying (R11.6). With C07's R7.3/R7.4 this gives exactly one EndRequest and "
+            "parser skips the retained AbortRequest without replying (R11.6); the request parser's reply buffer (the abort's EndRequest) is flushed "
+            "before every parser conversion (R11.7). With C07's R7.3/R7.4 this gives exactly one EndRequest and "
             "reuse under KeepConn. Does NOT decide that input delivered before the error is a prefix of what was sent (C02-level).",
     "note": "Reuses the extraction code of C04 / C07 / C12 and reports under C11's rule ids.",
     "design_ref": "DESIGN.md §4 C11",
@@ -182,13 +186,14 @@ CLAIMS["C03"] = {
     "design_ref": "DESIGN.md §4 C03",
 }
 CLAIMS["C05"] = {
-    "technique": "hand-off provenance and effect-order rules on enumerated MIR paths (with inlining of the parser's private helpers)",
+    "technique": "hand-off provenance and effect-order rules on enumerated MIR paths (with inlining of the parser's private helpers); must-dataflow on the interprocedural event graph (R5.5)",
     "text": "Decides the structural part of each hand-off: into_request / into_stream_parser pass exactly (input buffer, input_len) and "
             "convert only final states (R5.1, R5.2); the stream parser's constructor starts all cursors at 0 with free_start = that length; "
             "into_request_parser / into_input return Err(Interrupted) untouched off a record boundary, otherwise discard buffered stream data "
             "(parsed_start, gap_start <- 0), compact the raw region down, and only then read free_start for the hand-over; the request "
             "parser's constructor stores that length and starts in the initial state (R5.3); move_input keeps exactly the unconsumed tail "
-            "(R5.4). Does NOT decide the behavioural consequence (k sequential requests == k separate connections).",
+            "(R5.4); in the async layer close() never drives the stream parser while it stands at a record boundary, where buffered bytes belong to "
+            "the next request (R5.5, must-dataflow on the event graph). Does NOT decide the behavioural consequence (k sequential requests == k separate connections).",
     "note": "copy_within / Vec::truncate semantics of std trusted.",
     "design_ref": "DESIGN.md §4 C05",
 }
@@ -201,8 +206,9 @@ CLAIMS["C06"] = {
             "else (n+7) & !7} (R6.3, shape only). For sentence 1 it decides two necessary conditions named by the statement's mechanism: the "
             "payload goes to parse_stream with rec_end = false exactly under data.len() < payload_rem and otherwise as data[..payload_rem] with "
             "rec_end = true (R6.4), and with rec_end every unparsed byte is moved to the heap-side pair buffer and reported consumed (R6.5) - so a "
-            "fragment at a record end never waits in the input buffer for padding. Does NOT decide the arithmetic sufficiency of B-13 itself.",
-    "note": "R6.3 checks the expression shape, it does not evaluate it; the pinned config_bufsize test samples values.",
+            "fragment at a record end never waits in the input buffer for padding; a partially received GetValues body is consumed pair by pair "
+            "(R6.6). R6.3 is decided on values (E8): result >= buffer_size, >= 24, multiple of 8. Does NOT decide the arithmetic sufficiency of B-13 itself.",
+    "note": "usize::MAX is returned when buffer_size + 7 overflows (documented corner, accepted by R6.3).",
     "design_ref": "DESIGN.md §4 C06",
 }
 
@@ -257,7 +263,8 @@ CLAIMS["C01"] = {
             "built from the wire id and the BeginRequest body at bytes 8..16, and copies role and flags (R1.3); the Params dispatch rows "
             "are {own id & empty => done, own id & data => continue with (content_length, padding_length), else untouched} (R1.4); across "
             "all framing implementations a payload counter is only assigned the header's content_length, itself minus a consumed amount, "
-            "or 0, and a padding counter likewise from padding_length (R1.5). Does NOT decide equality of the decoded map for every record "
+            "or 0, and a padding counter likewise from padding_length (R1.5); the buffer really has at least the configured size the statement's "
+            "premise speaks of (R1.6). Does NOT decide equality of the decoded map for every record "
             "cut / read cut / buffer size: the cross-record reassembly arithmetic (parse_buffered, try_fill!) is value-level.",
     "note": "Name-value decoding itself is C16's subject; case-insensitive lookup is C19's.",
     "design_ref": "DESIGN.md §4 C01",
